@@ -156,3 +156,7 @@ def expected(model):
         ("cube", "axes"): Approx(model["axes"], atol=1e-12),
         ("cube", "data"): Approx(vals, atol=half),
     })
+
+
+# Classes that are generated but NOT asserted by C03 (triage decisions, see DESIGN.md section 7): class -> reason
+NOT_ASSERTED = {'zero_charge_column': 'the reader maps a zero second column to the atomic number (DESIGN 3.2: ghost atoms are outside the cube domain)', 'fortran_3digit_exponent': 'Fortran output without exponent letter (|exp|>99): edge case not named by the property'}
